@@ -804,6 +804,9 @@ class PartitionBulkIndexParamSource:
 
     @property
     def percent_completed(self):
+        # there is nothing to do for clients that don't get any documents (more clients than documents)
+        if self.total_bulks == 0:
+            return 1.0
         return self.current_bulk / self.total_bulks
 
 
